@@ -119,9 +119,45 @@ Section Render.
   Definition readable (dir line : bytes) : Prop := fs (path_join dir (line_file line)) <> None.
 End Render.
 
+(** * Runs in a directory that already has a README.md
+
+    sys.WriteFile is os.WriteFile: the file is created or TRUNCATED and then written, so after a
+    successful run README.md holds exactly the rendering, whatever it held before; a run that
+    panics never reaches sys.WriteFile, so README.md stays as it was ([None] = absent).
+    The sample files and the list may change between the runs of a history: every run comes with
+    its own file system.  (README.md itself is assumed not to be a listed file.) *)
+Section History.
+  Variable path_join : bytes -> bytes -> bytes.
+
+  (** README.md after one run, given README.md before it *)
+  Definition tool_run (fs : bytes -> option bytes) (before : option bytes) (dir content : bytes)
+    : option bytes :=
+    match render_readme fs path_join dir content with
+    | Ok s => Some s
+    | Panic _ => before
+    end.
+
+  Fixpoint tool_history (before : option bytes) (dir : bytes)
+           (runs : list ((bytes -> option bytes) * bytes)) : option bytes :=
+    match runs with
+    | [] => before
+    | (fs, content) :: r => tool_history (tool_run fs before dir content) dir r
+    end.
+End History.
+
 (** the instance run by the oracle: files given as an association list, Join = dir/name *)
 Definition fs_of (files : list (bytes * bytes)) (p : bytes) : option bytes :=
   match find (fun kv => beq (fst kv) p) files with Some kv => Some (snd kv) | None => None end.
 Definition join_slash (dir name : bytes) : bytes := dir ++ b "/" ++ name.
 Definition render_files (files : list (bytes * bytes)) (dir content : bytes) : outcome bytes :=
   render_readme (fs_of files) join_slash dir content.
+
+(** README.md after each run of a history (oracle) *)
+Fixpoint history_files (before : option bytes) (dir : bytes)
+         (runs : list (list (bytes * bytes) * bytes)) : list (option bytes) :=
+  match runs with
+  | [] => []
+  | (files, content) :: r =>
+      let after := tool_run join_slash (fs_of files) before dir content in
+      after :: history_files after dir r
+  end.
